@@ -70,7 +70,7 @@ def r2_verdict_dependence(ctx):
     pushes = [x for x, tt in sch.calls() if "alloc::vec::Vec::push" in sch.callees_of_call(tt, passed=False)]
     ok = any(("call:" + T + "Task::can_spuriously_wakeup") in fs.guard_labels(x) for x in pushes)
     ctx.ob("C03.R2", "spurious-tasks-offered", ok, "spuriously-wakeable blocked tasks are offered to the scheduler", loc=sch.loc())
-    c0 = ctx.body(E + "Execution::run_to_completion::{closure#0}", "C03.R2")
+    c0 = ctx.closure(E + "Execution::run_to_completion", ES + "schedule", "C03.R2")
     dl = [(s, st) for s, st in c0.assigns() if st["rv"]["k"] == "aggr" and st["rv"].get("variant") == "Deadlock"]
     if ctx.floor("C03.R2", "StepError::Deadlock construction", len(dl), 1):
         labs = expand_closure_labels(prog, FlowSlicer(c0).guard_labels(dl[0][0]))
@@ -170,7 +170,7 @@ def _block_implies_true(prog, c, s):
 
 def r4_report(ctx):
     prog = ctx.prog
-    rc = ctx.body(E + "Execution::run::{closure#0}", "C03.R4")
+    rc = ctx.closure(E + "Execution::run", E + "Execution::run_to_completion", "C03.R4")
     fl = []
     for b in prog.all_bodies({"shuttle_engine"}):
         if kinds.root_fn(prog, b.nkey) != E + "Execution::run":
